@@ -5,8 +5,9 @@
             | t<n> value*n | l<n> value*n | b<n> (<hex-name> value)*n | v<hex-tag> value
    case   ::= OP2 <eq|ne|lt|le|gt|ge|add|sub|mul|div> value value
             | OP1 <neg|tostring> value
+            | CASE <op2 name> value(Maybe) value      the payload bound by a `case` arm, then payload <op> value
             | FN <min|max|abs|clamp|sign|div|floor|rem|isjust|isnone|ordefault|index> <n> value*n
-            | LIST value <n> lop*n      lop ::= push v | prepend v | pop | get I | geteq I v | getisjust I | getisnone I
+            | LIST value <n> lop*n      lop ::= push v | prepend v | pop | get I | geteq I v | getcase I v | getisjust I | getisnone I
                                               | getordefault I v | set I v | len | map addk v
                                               | filter <ltk|eqk|nek> v | fold add v | find <ltk|eqk|nek> v
                                               | contains v | last
@@ -126,6 +127,18 @@ let pred name k : value -> bool =
 
 let z_of_tok t = z_of_int (parse_int t)
 
+(* `case m do Just x -> ... None -> ... end`: the tag is __INDEX(m, 1), the payload is bound to __INDEX(m, 2).
+   The observation made inside the Just arm: tostring(x) | tostring(x == v) [| yes/no for `if x` when v is a bool] *)
+let truthy = function VBool false | VLuaNil -> false | _ -> true
+let text v = string_of_chars (rt_tostring v)
+let case_obs (m : value) (v : value) : value =
+  if force (rt_is_just m) then begin
+    let x = force (rt_index m (vint (z_of_int 2))) in
+    let s = text x ^ "|" ^ text (VBool (rt_eq x v)) in
+    let s = (match v with VBool _ -> s ^ "|" ^ (if truthy x then "yes" else "no") | _ -> s) in
+    VStr (chars_of_string s)
+  end else VStr (chars_of_string "none")
+
 (* one list operation: (new list, observation) *)
 let list_step (l : value) (toks : string list) : (value * value) * string list =
   match toks with
@@ -134,6 +147,7 @@ let list_step (l : value) (toks : string list) : (value * value) * string list =
   | "pop" :: r -> (force (rt_list_pop l), r)
   | "get" :: i :: r -> ((l, force (rt_list_get l (z_of_tok i))), r)
   | "geteq" :: i :: r -> let (v, r) = parse_value r in ((l, vbool (rt_eq (force (rt_list_get l (z_of_tok i))) v)), r)
+  | "getcase" :: i :: r -> let (v, r) = parse_value r in ((l, case_obs (force (rt_list_get l (z_of_tok i))) v), r)
   | "getisjust" :: i :: r -> ((l, vbool (force (rt_is_just (force (rt_list_get l (z_of_tok i)))))), r)
   | "getisnone" :: i :: r -> ((l, vbool (force (rt_is_none (force (rt_list_get l (z_of_tok i)))))), r)
   | "getordefault" :: i :: r ->
@@ -176,6 +190,8 @@ let dict_step (d : value) (toks : string list) : (value * value) * string list =
   | "get" :: r -> let (k, r) = parse_value r in ((d, force (rt_dict_get d k)), r)
   | "geteq" :: r ->
     let (k, r) = parse_value r in let (v, r) = parse_value r in ((d, vbool (rt_eq (force (rt_dict_get d k)) v)), r)
+  | "getcase" :: r ->
+    let (k, r) = parse_value r in let (v, r) = parse_value r in ((d, case_obs (force (rt_dict_get d k)) v), r)
   | "len" :: r -> ((d, len_of d), r)
   | "has" :: r -> let (k, r) = parse_value r in ((d, vbool (force (rt_dict_contains_key d k))), r)
   | "fromlist" :: r -> let (l, r) = parse_value r in let d' = force (rt_dict_from_list l) in ((d', len_of d'), r)
@@ -267,6 +283,13 @@ let run_case (line : string) : string =
      | "neg" -> res_line (rt_neg a)
      | "tostring" -> "R OK:" ^ show a
      | _ -> failwith "bad op1")
+  | "CASE" :: name :: r ->
+    (* case m do Just x -> x <op> w ... None -> "none" *)
+    let (m, r) = parse_value r in let (w, _) = parse_value r in
+    (try
+       if force (rt_is_just m) then res_line (op2 name (force (rt_index m (vint (z_of_int 2)))) w)
+       else "R OK:" ^ hex_of_string "none"
+     with Lua_error -> "R ERR" | Unsupported -> "R UNSUP")
   | "FN" :: name :: n :: r ->
     let (args, _) = parse_values (int_of_string n) r in
     (try res_line (fn name args) with Lua_error -> "R ERR" | Unsupported -> "R UNSUP")
